@@ -1307,6 +1307,17 @@ func ntsHistories(c *lib.Ctx, r *lib.Rand, validReq func() []byte, junk func(int
 		}
 		_, _, alone := opOf(items)
 		for i, it := range items {
+			// invalid BY CONSTRUCTION (the harness chose random keys / random cookie bytes): whatever the
+			// real NTS functions say about such a datagram, the property says it is not a valid NTS
+			// request — an independent verdict for the authenticity clause (the branch's own verdict
+			// `alone` is computed with the code under test)
+			forged := it.kind == "forged-auth" || it.kind == "cookie-wrong-key" || it.kind == "cookie-unknown-key" ||
+				it.kind == "junk-cookie-request" || it.kind == "junk-cookie-field"
+			if forged && alone[i] {
+				c.Fail("C09:nts:forged-request-accepted-by-branch", "a datagram built with a forged authenticator / a cookie that no server key can open passes the NTS branch's calls (cookie lookup, Decrypt, ProcessRequest) on fresh structs: the listener would answer a payload that is not a valid NTS request",
+					[]string{func() string { o, _, _ := opOf([]item{it}); return o }()}, map[string]any{"kind": it.kind, "len": len(it.b)})
+				return
+			}
 			if it.valid && len(it.b) > 48 && !alone[i] { // the request builders and the branch disagree without any listener involved
 				c.Fail("C09:nts:valid-request-refused-by-branch", "a request built as an authentic NTS request does not pass the NTS branch's calls on fresh structs",
 					[]string{func() string { o, _, _ := opOf([]item{it}); return o }()}, map[string]any{"kind": it.kind, "len": len(it.b)})
